@@ -59,7 +59,7 @@ def run_one(m, tier='quick'):
                                capture_output=True, text=True)
             if r.returncode != 0:
                 return (m, 'skipped', 'patch does not apply: ' + r.stdout[-200:])
-        else:
+        if 'edits' in m:
             for ed in m['edits']:
                 fp = os.path.join(tmp, ed['file'])
                 src = open(fp).read()
